@@ -498,6 +498,44 @@ def run(ctx, prog):
                     break
             fe = failure_edge(fn, i, "ptr", var)
             if not fe:
+                # the result may be handed straight to a helper of ResourceManager that raises the flag
+                # on its null branch (e.g. `return checkAllocation(StringNode::create(...))`)
+                via = None
+                for a in fn.ancestors(i):
+                    sa = fn.s(a)
+                    if sa["k"] in P.CALL_KINDS and "callee" in sa and sa["callee"]["q"].split("::")[-2:-1] == ["ResourceManager"]:
+                        h = prog.fns.get(sa["callee"]["key"])
+                        idx = [n_ for n_, x in enumerate(sa.get("args", [])) if i in set(fn.walk(x))]
+                        if h is not None and idx and idx[0] < len(h.params):
+                            via = (h, h.params[idx[0]]["d"])
+                        break
+                if via is not None:
+                    h, pd_ = via
+                    hfe = []
+                    for b_, cond_, succ_ in h.branch_conditions():
+                        ii = h.strip(cond_, casts=True)
+                        sh = h.s(ii)
+                        neg_ = False
+                        while sh["k"] == "UnaryOperator" and sh["op"] == "!":
+                            neg_ = not neg_
+                            ii = h.strip(sh["c"][0], casts=True)
+                            sh = h.s(ii)
+                        if sh["k"] == "DeclRefExpr" and sh["ref"]["d"] == pd_:
+                            hfe.append(succ_[0] if neg_ else succ_[1])
+                    hset = set()
+                    for j in h.walk():
+                        sj = h.s(j)
+                        if sj["k"] == "BinaryOperator" and sj["op"] == "=" and is_member_of_this(h, sj["c"][0], "overflowed_"):
+                            r_ = h.s(h.strip(sj["c"][1], casts=True))
+                            if r_.get("v") is True or r_.get("cv") == "1":
+                                bj = h.block_of(j)
+                                if bj:
+                                    hset.add(bj[0])
+                    okh = bool(hfe) and all(h.cfg["exit"] not in h.reach_from([fb_], avoid=hset) for fb_ in hfe)
+                    ctx.ob(rule, "%s: failure of %s sets overflowed_" % (fn.short, q.split("::")[-1]), okh, fn.loc(i),
+                           "the result goes through %s, whose null branch sets overflowed_ on every path" % h.short if okh else
+                           "the result goes through %s, which does not set overflowed_ on its null branch" % h.short)
+                    continue
                 ctx.ob(rule, "%s: failure of %s sets overflowed_" % (fn.short, q.split("::")[-1]), False, fn.loc(i),
                        "no failure branch for this allocation: the sticky flag cannot be set")
                 continue
